@@ -1115,7 +1115,11 @@ def fs_read(it, p, binary=True):
         it.raise_(FileNotFoundError, "No such file or directory")
     it.trace.append(("read", pt))
     if binary:
-        return VBytes(it.fs.read_bin(pt))
+        t = it.fs.read_bin(pt)
+        bound = getattr(it, "fs_len_bound", None)
+        if bound is not None:
+            it.assume(z3.Length(t) < bound)  # input assumption of the contract being verified (listed there)
+        return VBytes(t)
     return VStr(it.fs.read_txt(pt))
 
 
